@@ -423,11 +423,15 @@ def break_case(case):
         "while True:\n    if count > 2:\n        break\n    count += 1\n",
         "while True:\n    count += 1\n    if count > 1:\n        if count > 2:\n            break\n",
         "while True:\n    try:\n        break\n    except:\n        count = 0\n",
+        "while True:\n    count += 1\n    if count > 5:\n        count = 0\n    elif count > 3:\n        break\n    else:\n        mon.write(count)\n",
+        "while True:\n    count += 1\n    if count > 5:\n        count = 0\n    else:\n        break\n",
+        "while True:\n    try:\n        count += 1\n    except:\n        break\n",
+        "while True:  # main loop\n    if count > 2:\n        if count > 3:\n            mon.write(1)\n        else:\n            break\n    count += 1\n",
     ]
     inner_ok = "while True:\n    for i in range(3):\n        if i == 1:\n            break\n        mon.write(i)\n    sleep(5)\n"
-    script = HDR + "mon = SerialMonitor(9600)\ncount = 0\n" + (variants[idx % len(variants)] if idx < 8 else inner_ok)
+    script = HDR + "mon = SerialMonitor(9600)\ncount = 0\n" + (variants[idx % len(variants)] if idx < 16 else inner_ok)
     t = engine.transpile(script)
-    return {"script": script, "status": t["status"], "exc": t.get("exc"), "expect_reject": idx < 8}
+    return {"script": script, "status": t["status"], "exc": t.get("exc"), "expect_reject": idx < 16}
 
 
 def main() -> int:
@@ -466,7 +470,7 @@ def main() -> int:
                 rep.count("cpython_discarded_" + r["py_status"])
         if len(rep.samples) < 3:
             rep.sample({"script": res["script"][-800:], "runs": [{k: r.get(k) for k in ("n", "events", "compared")} for r in res["runs"]]})
-    for case, st, res in run_cases(break_case, [(i, sd) for i in range(10)]):
+    for case, st, res in run_cases(break_case, [(i, sd) for i in range(18)]):
         if st != "ok":
             continue
         rep.case("break:" + str(case[0]), True)
